@@ -33,10 +33,6 @@ def step_voltage_explicit(
     debug_states,
 ) -> jnp.ndarray:
     """Solve one timestep of branched nerve equations with explicit (forward) Euler."""
-    voltages = jnp.reshape(voltages, (nbranches, -1))
-    voltage_terms = jnp.reshape(voltage_terms, (nbranches, -1))
-    constant_terms = jnp.reshape(constant_terms, (nbranches, -1))
-
     update = _voltage_vectorfield(
         voltages,
         voltage_terms,
@@ -54,7 +50,7 @@ def step_voltage_explicit(
         debug_states,
     )
     new_voltates = voltages + delta_t * update
-    return new_voltates.ravel(order="C")
+    return new_voltates
 
 
 def step_voltage_implicit_with_jaxley_spsolve(
@@ -277,30 +273,13 @@ def _voltage_vectorfield(
     # Membrane current update.
     vecfield = -voltage_terms * voltages + constant_terms
 
-    # Build upper and lower within the branch.
+    # Current through segments within the same branch. Branches can have different
+    # numbers of compartments, so the currents are accumulated per compartment.
     c2c = types == 0  # c2c = compartment-to-compartment.
-
-    # Build uppers.
-    upper_inds = sources[c2c] > sinks[c2c]
-    if len(upper_inds) > 0:
-        uppers = axial_conductances[c2c][upper_inds]
-    else:
-        uppers = jnp.asarray([])
-
-    # Build lowers.
-    lower_inds = sources[c2c] < sinks[c2c]
-    if len(lower_inds) > 0:
-        lowers = axial_conductances[c2c][lower_inds]
-    else:
-        lowers = jnp.asarray([])
-
-    # For networks consisting of branches.
-    uppers = jnp.reshape(uppers, (nbranches, -1))
-    lowers = jnp.reshape(lowers, (nbranches, -1))
-
-    # Current through segments within the same branch.
-    vecfield = vecfield.at[:, :-1].add((voltages[:, 1:] - voltages[:, :-1]) * uppers)
-    vecfield = vecfield.at[:, 1:].add((voltages[:, :-1] - voltages[:, 1:]) * lowers)
+    if np.sum(c2c) > 0:
+        vecfield = vecfield.at[sinks[c2c]].add(
+            (voltages[sources[c2c]] - voltages[sinks[c2c]]) * axial_conductances[c2c]
+        )
 
     return vecfield
 
